@@ -60,6 +60,78 @@ class GuardFlow(flow.Analysis):
         return state
 
 
+PREFETCH_CASES = (
+    ("lower triangular 3x3", [[1, 0, 0], [1, 1, 0], [0, 1, 1]]),
+    ("permuted singletons 2x2", [[0, 1], [1, 0]]),
+    ("permuted triangular 3x3", [[0, 1, 1], [0, 0, 1], [1, 1, 1]]),
+    ("permuted triangular 4x4", [[1, 0, 1, 1], [0, 0, 1, 0], [1, 1, 1, 1], [0, 0, 1, 1]]),
+    ("2x2 cycle only", [[1, 1], [1, 1]]),
+    ("cycle with a first and a last singleton", [[1, 0, 0, 0], [1, 1, 1, 0], [0, 1, 1, 0], [0, 1, 1, 1]]),
+    ("nested peeling: a singleton appears after the first pass", [[1, 0, 0, 0], [1, 1, 0, 0], [0, 1, 1, 1], [1, 0, 1, 1]]),
+    ("last-singletons found at two depths", [[1, 1, 0, 0], [1, 1, 0, 0], [1, 0, 1, 0], [0, 1, 1, 1]]),
+    ("diagonal 3x3", [[1, 0, 0], [0, 1, 0], [0, 0, 1]]),
+    ("reverse diagonal 3x3", [[0, 0, 1], [0, 1, 0], [1, 0, 0]]),
+    ("upper triangular 3x3", [[1, 1, 1], [0, 1, 1], [0, 0, 1]]),
+    ("two cycles chained", [[1, 1, 0, 0], [1, 1, 0, 0], [1, 0, 1, 1], [0, 0, 1, 1]]),
+    ("1x1", [[1]]),
+)
+
+
+def _prefetch_by_evaluation(chk, rid, bm):
+    """prefetch (with the helpers it calls, recursion included) evaluated on small incidence matrices with labelled ids: what it peels
+    off is a VALID ordering - k-th first/last equation paired with the k-th first/last quantity which occurs in it, every equation reads
+    only quantities of its own or earlier blocks, the three parts partition the ids, the remainder is the matching submatrix and has no
+    row or column with a single incidence left (nothing more can be peeled)"""
+    from .. import fin, incidence
+    f = bm.func("prefetch")
+    for q in ("prefetch", "_prefetch_first", "_prefetch_last", "_split_ids"):
+        if bm.has(q):
+            chk.saw(bm, q)
+    helpers = fin.module_funcs(bm, dict(incidence.FUNCS))
+    for label, rows in PREFETCH_CASES:
+        n = len(rows)
+        eids = tuple(10 + i for i in range(n))
+        qids = tuple(20 + (3 * j + 1) % n if n > 1 else 20 for j in range(n))      # ids in an order different from the positions
+        key = f"incidences.blazer.prefetch[{label}]"
+        try:
+            out = helpers["prefetch"](incidence.IM(rows), eids=eids, qids=qids)
+            ef, qf, el, ql, er, qr, rem = [tuple(x) if not isinstance(x, incidence.IM) else x for x in out]
+        except (fin.NotFinite, fin.Raised, TypeError, AttributeError, IndexError, ValueError, KeyError) as ex:
+            chk.undecided(rid, key, f"not finitely evaluable: {type(ex).__name__}: {ex}", bm.loc(f))
+            continue
+        inc = {e_: {qids[j] for j in range(n) if rows[i][j]} for i, e_ in enumerate(eids)}
+        bad = None
+        if sorted(ef + er + el) != sorted(eids) or sorted(qf + qr + ql) != sorted(qids) or len(ef) != len(qf) or len(el) != len(ql) or len(er) != len(qr):
+            bad = f"first {ef}/{qf}, remainder {er}/{qr}, last {el}/{ql} do not partition the {n} equations and {n} quantities into pairs"
+        if bad is None:
+            known = set()
+            for e_, q_ in zip(ef, qf):
+                if q_ not in inc[e_] or not inc[e_] <= known | {q_}:
+                    bad = f"first block pairs equation {e_} (which reads {sorted(inc[e_])}) with quantity {q_} when {sorted(known)} are determined: not solvable there"
+                    break
+                known.add(q_)
+        if bad is None:
+            known |= set(qr)
+            for e_ in er:
+                if not inc[e_] <= known:
+                    bad = f"equation {e_} of the simultaneous core reads {sorted(inc[e_] - known)}, which are only determined in the last blocks"
+                    break
+        if bad is None:
+            for e_, q_ in zip(el, ql):
+                if q_ not in inc[e_] or not inc[e_] <= known | {q_}:
+                    bad = f"last block pairs equation {e_} (which reads {sorted(inc[e_])}) with quantity {q_} when {sorted(known)} are determined: not solvable there"
+                    break
+                known.add(q_)
+        if bad is None:
+            want_rem = [[rows[eids.index(e_)][qids.index(q_)] for q_ in qr] for e_ in er]
+            got_rem = [[int(bool(x)) for x in r] for r in rem.rows] if isinstance(rem, incidence.IM) else None
+            if got_rem != want_rem:
+                bad = f"the remaining matrix {got_rem} is not the submatrix of the remaining equations {er} and quantities {qr} ({want_rem})"
+            elif any(sum(r) == 1 for r in want_rem) or any(sum(c) == 1 for c in zip(*want_rem)):
+                bad = f"the remainder {want_rem} still has a row or a column with a single incidence: peeling stopped early"
+        chk.ob(rid, key, bad is None, bad or f"peels {len(ef)} first and {len(el)} last singleton blocks, core {len(er)}x{len(qr)}: a valid ordering", bm.loc(f), sure=True)
+
+
 def rule_r3(chk, rid="C16-R3"):
     """block-triangular prefetch: order of accumulation and equation/quantity symmetry"""
     from ..core import squash, assignments, assign_value, single_return, tuple_names
@@ -70,13 +142,7 @@ def rule_r3(chk, rid="C16-R3"):
     bm = chk.repo.mod(BMOD)
     f = bm.func("prefetch")
     chk.saw(bm, "prefetch")
-    for kind in ("eids", "qids"):
-        a = [squash(x.value) for x in assignments(f, f"{kind}_first") if "_next" in squash(x.value)]
-        b = [squash(x.value) for x in assignments(f, f"{kind}_last") if "_next" in squash(x.value)]
-        chk.ob(rid, f"incidences.blazer.prefetch[{kind}_first order]", a == [f"{kind}_first+{kind}_first_next"] if a else None,
-               f"{kind}_first = {a}: outer first-blocks precede the ones found deeper", bm.loc(f))
-        chk.ob(rid, f"incidences.blazer.prefetch[{kind}_last order]", b == [f"{kind}_last_next+{kind}_last"] if b else None,
-               f"{kind}_last = {b}: last-blocks found deeper precede the outer ones (they may be inputs to them)", bm.loc(f))
+    _prefetch_by_evaluation(chk, rid, bm)
     for q in ("prefetch", "blaze", "sequentialize_strictly", "_generate_inner_blocks"):
         g = bm.func(q)
         chk.saw(bm, q)
@@ -98,9 +164,6 @@ def rule_r3(chk, rid="C16-R3"):
     ok = bs is not None and "ifnotim[:i,i:].any()" in squash(bs) and "range(1,im.shape[0]+1)" in squash(bs)
     chk.ob(rid, "incidences.blazer._generate_inner_blocks[block closes]", ok if bs is not None else None,
            "smallest i with no incidence of equations 0..i-1 on quantities i.. (block-triangular from below)", bm.loc(gi))
-    pf, pl = bm.func("_prefetch_first"), bm.func("_prefetch_last")
-    ok = "sum_in_rows=im.sum(axis=1)" in squash(pf) and "_np.where(sum_in_rows==1)" in squash(pf) and "sum_in_columns=im.sum(axis=0)" in squash(pl) and "_np.where(sum_in_columns==1)" in squash(pl)
-    chk.ob(rid, "incidences.blazer[_prefetch_first/_last criteria]", ok, "first: equations with exactly one unknown; last: quantities occurring in exactly one equation", bm.loc(pf))
     # _split_ids keeps the ORDER of the matched positions: the k-th extracted equation is paired with the k-th extracted quantity
     from .. import fin
     sp = bm.func("_split_ids")
@@ -119,15 +182,6 @@ def rule_r3(chk, rid="C16-R3"):
                if bad is None else f"_split_ids{bad[:2]} = {bad[2]} (want {bad[3]}): the pairing equation<->quantity of the prefetched 1x1 blocks is lost", bm.loc(sp), sure=True)
     except fin.NotFinite as ex:
         chk.undecided(rid, "incidences.blazer._split_ids[order of matched positions]", str(ex), bm.loc(sp))
-    # both sides are split by index lists computed from the same matching
-    for g, (a_idx, b_idx) in ((pf, ("index_rows", "index_columns")), (pl, ("index_rows", "index_columns"))):
-        cs = calls_to(g, "_split_ids")
-        pairs = sorted((squash(c.args[0]), squash(c.args[1])) for c in cs if len(c.args) == 2)
-        chk.ob(rid, f"incidences.blazer.{g.name}[split by matched index lists]", pairs == [("eids", "index_rows"), ("qids", "index_columns")],
-               f"_split_ids calls: {pairs}", bm.loc(g))
-    for g, order in ((pf, ("eids_first", "qids_first", "eids_rem", "qids_rem", "im")), (pl, ("eids_last", "qids_last", "eids_rem", "qids_rem", "im"))):
-        ok = tuple(tuple_names(single_return(g)) or ()) == order
-        chk.ob(rid, f"incidences.blazer.{g.name}[return order]", ok, f"returns {tuple_names(single_return(g))}", bm.loc(g))
 
 
 def rule_r4(chk):
@@ -135,35 +189,51 @@ def rule_r4(chk):
     chk.rule("C16-R4", "a failed strict sequentialization cannot be stored: on the failing path sequentialize_strictly either raises, or "
              "returns an order built only from the prefetched first/last equations - never including the unresolved remainder - so "
              "that reorder_equations (C16-R1) rejects it as not a permutation", floor=2)
+    from .. import fin, incidence
     bm = chk.repo.mod(BMOD)
     f = bm.func("sequentialize_strictly")
     chk.saw(bm, "sequentialize_strictly")
-    unp = [n for n in ast.walk(f) if isinstance(n, ast.Assign) and isinstance(n.targets[0], ast.Tuple) and isinstance(n.value, ast.Call) and dotted(n.value.func) == "prefetch"]
-    if len(unp) != 1:
-        chk.undecided("C16-R4", "incidences.blazer.sequentialize_strictly", "prefetch call not recognised", bm.loc(f))
-        return
-    names = [unparse(e) for e in unp[0].targets[0].elts]
-    want_pos = bm.func("prefetch")
-    ret_names = [unparse(e) for e in single_return(want_pos).elts]
-    # positional agreement with prefetch's return
-    role = dict(zip(names, ret_names))
-    rem = [n for n, r in role.items() if r in ("eids", "qids", "im")]
-    fails = [n for n in ast.walk(f) if isinstance(n, ast.If) and "fail" in unparse(n.test)]
-    raises = any(isinstance(x, ast.Raise) for n in fails for x in ast.walk(n))
-    fail_def = [n.value for n in ast.walk(f) if isinstance(n, ast.Assign) and unparse(n.targets[0]) == "fail"]
-    covers = bool(fail_def) and all(any(isinstance(x, ast.Name) and x.id == r for x in ast.walk(fail_def[-1])) for r in rem[:2])
-    chk.ob("C16-R4", "incidences.blazer.sequentialize_strictly[failure detected]", covers if fail_def else None,
-           f"`fail` covers a non-empty remainder ({rem})", bm.loc(f))
-    r = single_return(f)
-    used = {x.id for x in ast.walk(r) if isinstance(x, ast.Name)}
-    leaks = sorted(used & set(rem))
-    ok = True if raises else (not leaks)
-    chk.ob("C16-R4", "incidences.blazer.sequentialize_strictly[failing path]", ok,
-           "the failing branch raises" if raises else
-           (f"the failing branch does not raise (the exception object is created, not raised); the returned order {unparse(r)} omits the "
-            f"unresolved remainder, so it is not a permutation and reorder_equations rejects it" if not leaks else
-            f"the failing branch does not raise and the returned order {unparse(r)} includes the unresolved remainder {leaks}: a model with "
-            "simultaneity is silently reordered and reported sequential"), bm.loc(r))
+    helpers = fin.module_funcs(bm, dict(incidence.FUNCS, **{"_wrongdoings.IrisPieError": lambda *a, **k: ("error object",) + a,
+                                                                "_wrongdoings.IrisPieCritical": lambda *a, **k: ("error object",) + a}))
+    cases = (
+        ("sequential as written", [[1, 0, 0], [1, 1, 0], [0, 1, 1]], True),
+        ("sequential after reordering", [[1, 1, 0], [0, 1, 0], [1, 0, 1]], True),
+        ("two equations determine each other", [[1, 1, 0], [1, 1, 0], [0, 1, 1]], False),
+        ("cycle of three", [[1, 1, 0], [0, 1, 1], [1, 0, 1]], False),
+        ("cycle behind a sequential head", [[1, 0, 0, 0], [1, 1, 1, 0], [0, 1, 1, 0], [0, 0, 1, 1]], False),
+        ("reverse order", [[1, 1, 1], [0, 1, 1], [0, 0, 1]], True),
+    )
+    for label, rows, sequential in cases:
+        n = len(rows)
+        key = f"incidences.blazer.sequentialize_strictly[{label}]"
+        try:
+            try:
+                order = tuple(helpers["sequentialize_strictly"](incidence.IM(rows)))
+                raised = False
+            except fin.Raised:
+                order, raised = None, True
+        except (fin.NotFinite, TypeError, AttributeError, IndexError, ValueError, KeyError) as ex:
+            chk.undecided("C16-R4", key, f"not finitely evaluable: {type(ex).__name__}: {ex}", bm.loc(f))
+            continue
+        is_perm = order is not None and sorted(order) == list(range(n))
+        if sequential:
+            bad = None
+            if not is_perm:
+                bad = f"a valid order exists but the result is {'an error' if raised else order}"
+            else:
+                known = set()
+                for e_ in order:
+                    reads = {j for j in range(n) if rows[e_][j]}
+                    if not reads <= known | {e_}:
+                        bad = f"order {order}: equation {e_} reads the left-hand variables {sorted(reads - known - {e_})} of equations that come later"
+                        break
+                    known.add(e_)
+            chk.ob("C16-R4", key, bad is None, bad or f"order {order}: every equation reads only its own and earlier left-hand variables", bm.loc(f), sure=True)
+        else:
+            chk.ob("C16-R4", key, raised or not is_perm,
+                   ("raises" if raised else f"returns {order}, not a permutation of 0..{n - 1}: reorder_equations (C16-R1) rejects it and the model stays untouched")
+                   if (raised or not is_perm) else f"no valid order exists, yet the full permutation {order} is returned: a model with simultaneity is silently "
+                   "reordered and reported sequential", bm.loc(f), sure=True)
 
 
 def rule_r5(chk, rid="C16-R5"):
